@@ -15,6 +15,7 @@ import os
 import re
 import shutil
 import subprocess
+import sys
 import tempfile
 import time
 from pathlib import Path
@@ -81,7 +82,21 @@ def parse_tagged(raw: list[str], tag: str) -> list:
     return res
 
 
-def run_tlc(
+def run_tlc(module: str, cfg: str | None = None, **kw) -> "TLCResult":
+    """One TLC run; a run that dies for a reason that is not a verdict (killed, JVM out of resources on a loaded
+    machine: exit code that is neither success nor a violation, output without a completion line) is repeated once."""
+    try:
+        return _run_tlc_once(module, cfg, **kw)
+    except TLCFailure as ex:
+        msg = str(ex)
+        if not (msg.startswith("TLC exit") or msg.startswith("TLC did not finish")) or "Parsing or semantic" in msg:
+            raise
+        print(f"TLC run failed without a verdict, repeating once: {msg[:300]}", file=sys.stderr)
+        time.sleep(5)
+        return _run_tlc_once(module, cfg, **kw)
+
+
+def _run_tlc_once(
     module: str,
     cfg: str | None = None,
     *,
